@@ -83,7 +83,7 @@ def replay_dictattr(call):
         sels = []
         if op.endswith('.key'):
             sels = ['K0', 'K1', 'f', 'absent']
-        elif op.startswith('add'):
+        elif op.startswith('add') or op.startswith('or.'):
             sels = [dict(o) for o in ({}, {'K0': 'o0'}, {'n': 'on', 'K1': 'o1'}, {'n': 'on', 'm': 'om', 'K0': 'o0'}, {'m': 'om', 'n': 'on'})]
         elif op == 'relabel':
             sels = [{}, {'K0': 'R0'}, {'K0': 'R0', 'K1': 'R1', 'zz': 'never'}, {'f': 'K9'}]
@@ -108,9 +108,9 @@ def replay_dictattr(call):
                         exp = {k: vals[k] for k in keys if k in sl}
                         if not _same(r, exp, cls) or r is d:
                             msg = 'd & %r = %s(%r), expected %r' % (sel, type(r).__name__, dict(r), exp)
-                    elif op.startswith('add'):
+                    elif op.startswith('add') or op.startswith('or.'):
                         other = dict(sel) if op.endswith('dict') else cls(dict(sel))
-                        r = d + other
+                        r = (d + other) if op.startswith('add') else (d | other)
                         exp = {**vals, **sel}
                         if not _same(r, exp, cls) or r is d or dict(other) != sel:
                             msg = 'd + %r = %s(%r), expected %r' % (sel, type(r).__name__, dict(r), exp)
